@@ -217,9 +217,16 @@ func reshape(v reflect.Value, next func(n int) int, depth int) int {
 		// the same pointer in several slots of a slice of pointers (also in its spare
 		// capacity): legal in a caller's value; the data changes, so only where allowed
 		if aliasRows && t.Elem().Kind() == reflect.Ptr && v.Len() >= 2 && next(2) == 0 {
-			i, j := next(v.Len()), next(v.Len())
-			if i != j && !v.Index(j).IsNil() {
-				v.Index(i).Set(v.Index(j))
+			j := next(v.Len())
+			if !v.Index(j).IsNil() {
+				if next(2) == 0 {
+					// every slot holds the one pointer (a default element stored everywhere)
+					for i := 0; i < v.Len(); i++ {
+						v.Index(i).Set(v.Index(j))
+					}
+				} else if i := next(v.Len()); i != j {
+					v.Index(i).Set(v.Index(j))
+				}
 				n++
 			}
 			if full := v.Slice(0, v.Cap()); full.Len() > v.Len() {
